@@ -253,6 +253,10 @@ def run_fill(model, sc: Scenario, ctx=None):
     def lineq(ev, a, k):
         eqs = ev.iterate(a[0], None, None)
         syms = list(a[1:])
+        if len(syms) == 1 and isinstance(syms[0], Tup):        # linear_eq_to_matrix(eqs, [s1, s2, ...]): one iterable of symbols
+            syms = list(syms[0].items)
+        if not all(is_sym(s_) for s_ in syms):
+            raise AnalysisError("linear_eq_to_matrix: the unknowns are not symbols")
         sc.lineq_syms = [str(s) for s in syms]
         A, b = sp.linear_eq_to_matrix([as_sym(e) for e in eqs], *syms)
         m = ArrV(0, (A.shape[0], A.shape[1]))
@@ -293,6 +297,14 @@ def run_fill(model, sc: Scenario, ctx=None):
         if isinstance(v, ArrV) and len(v.shape) == 2 and v.shape[1] == 1 and axis is not None and _const_int(axis) == 1:
             return DataMat([v.get((i, 0)) for i in range(v.shape[0])])
         raise AnalysisError("numpy.repeat of an unsupported value / axis in fill_cij")
+
+    def tile(ev, a, k):
+        # numpy.tile(column, (1, nvol)): the constant column repeated over the volumes (reps (1, n) only)
+        v, reps = a[0], a[1] if len(a) > 1 else k.get("reps")
+        if isinstance(v, ArrV) and len(v.shape) == 2 and v.shape[1] == 1 and isinstance(reps, Tup) and len(reps.items) == 2 \
+                and is_sym(reps.items[0]) and reps.items[0] == 1:
+            return DataMat([v.get((i, 0)) for i in range(v.shape[0])])
+        raise AnalysisError("numpy.tile of an unsupported value / repetition in fill_cij")
 
     def matrix2numpy(ev, a, k):
         k.all()
@@ -544,7 +556,7 @@ def run_fill(model, sc: Scenario, ctx=None):
         "sympy.linear_eq_to_matrix": lineq, "numpy.array": np_array, "numpy.broadcast_to": broadcast_to,
         "solmat.max": solmat_reduce("max"), "solmat.min": solmat_reduce("min"), "numpy.abs": solmat_abs, "numpy.absolute": solmat_abs, "numpy.fabs": solmat_abs,
         "predlist.all": predlist_all,
-        "numpy.concatenate": concatenate, "numpy.vstack": concatenate, "numpy.row_stack": concatenate, "numpy.repeat": repeat, "sympy.matrix2numpy": matrix2numpy,
+        "numpy.concatenate": concatenate, "numpy.vstack": concatenate, "numpy.row_stack": concatenate, "numpy.repeat": repeat, "numpy.tile": tile, "sympy.matrix2numpy": matrix2numpy,
         "numpy.linalg.lstsq": lstsq, "numpy.allclose": allclose,
         "numpy.isclose": isclose, "boolmat.any": boolred("any"), "boolmat.all": boolred("all"),
         "DataFrame.items": df_items, "DataFrame.drop": df_drop, "identity": lambda ev, a, k: a[0],
